@@ -684,3 +684,10 @@ func PeerFactory(cidr, gateway string, class string) Factory {
 		},
 	}
 }
+
+// EpochConfigOK reports whether the epoch allocator's constructor accepts the configuration
+// (a configuration the constructor rejects is outside the input domain).
+func EpochConfigOK(cidr string, grace uint64) bool {
+	_, err := allocator.NewEpochBitmapAllocator(allocator.EpochBitmapConfig{BaseNetwork: cidr, PrefixLength: 32, GracePeriod: grace})
+	return err == nil
+}
